@@ -114,6 +114,53 @@ func TestEnumCatalogue(t *testing.T) {
 	stats.Subspace("degenerate catalogue (4 coordinate sets, with nil member slices, plus orb.AllGeometries) x nesting 0..3 x 4 boxes/parameter sets", size, true)
 }
 
+// TestEnumLongMembers: vertex lists of 31..257 vertices (around every power of two, where bulk or
+// buffered paths start) for every kind with a vertex list, alone and as the first / last / nested
+// member of a collection whose other members are a point, a multi-point, a short polygon, a bound
+// and a ring: a path taken only past an element count shows in what follows it.
+func TestEnumLongMembers(t *testing.T) {
+	assumptions()
+	currentTest = "TestEnumLongMembers"
+	var idx, size int64
+	for ni, n := range longCounts {
+		for ki, kind := range longKinds {
+			for fi, g := range longForms(longValue(kind, n)) {
+				idx++
+				size++
+				if !stats.Mine(idx) {
+					continue
+				}
+				k := (ni + ki + fi) % 4
+				c := Case{
+					G: gG(g), H: gG(perturbLast(g)), World: "lonlat", Q: gen.P{1.25, 0.75},
+					Box:  gen.FromBound([]orb.Bound{{Min: orb.Point{0, 0}, Max: orb.Point{2, 2}}, {Min: orb.Point{-3, -3}, Max: orb.Point{4, 4}}, {Min: orb.Point{0.5, -1}, Max: orb.Point{1.5, 5}}, {Min: orb.Point{10, 10}, Max: orb.Point{11, 11}}}[k]),
+					Zoom: []int{5, 9, 2, 7}[k], Thr: gen.F([]float64{0.05, 0, 1, 0.3}[k]), Keep: []int{0, 40, 2, 130}[k],
+					Factor: []int{0, 10, 1000, 1}[k], SRID: []int{4326, 3857, 1, 0}[k], Proj: []string{"toMercator", "affine", "toWGS84", "affine"}[k],
+					Layout: []string{"shared", "spare", "plain", "shared"}[k],
+				}
+				stats.Eval("TestEnumLongMembers", 1)
+				stats.Class("long:" + kind)
+				if nonTrivial(g) {
+					stats.NonTrivial(gen.Canon(g))
+				}
+				stats.TryT(t, "TestEnumLongMembers", c, func() error { return checkCase(c) })
+			}
+		}
+	}
+	stats.Subspace("vertex lists of n in {31,32,33,63,64,65,100,127,128,129,255,256,257} x 7 kinds (line, ring, polygon outer ring, polygon hole, multi-point, first / last line of a multi-line) x {alone, first, last, nested-first member of a collection of short point/multi-point/polygon/bound/ring}", size, true)
+}
+
+// perturbLast is a copy of g whose last slice-held coordinate differs.
+func perturbLast(g orb.Geometry) orb.Geometry {
+	out := deepCopy(g)
+	var last *float64
+	gen.Walk(out, func(p *float64) { last = p })
+	if last != nil {
+		*last += 1
+	}
+	return out
+}
+
 // ---------------------------------------------------------------- entry-point table self-test
 
 // covered lists every exported function or method with an orb.Geometry parameter that checkCase drives.
